@@ -999,6 +999,7 @@ class Server:
             acquired=False,
             restart_offset=0,
             aborting=set(),
+            data_streams=[],
             passive_lock=asyncio.Lock(),
             _dispatcher=get_current_task(),
         )
@@ -1127,7 +1128,10 @@ class Server:
                 if connection.future.data_connection.done():
                     connection.data_connection.close()
                 # a peer which does not read its replies does not keep the
-                # socket
+                # socket - nor one which has not taken the end of a transfer
+                # that is over for the server
+                for data_stream in connection.data_streams:
+                    data_stream.give_up()
                 stream.give_up()
             if connection.acquired:
                 self.available_connections.release()
@@ -1599,6 +1603,13 @@ class Server:
             await asyncio.wait([task])
             raise
 
+    @staticmethod
+    def _remember_data_stream(connection):
+        # (those whose transport is gone need no looking after any more)
+        streams = connection.data_streams
+        streams[:] = [s for s in streams if not s.is_gone()]
+        streams.append(connection.data_connection)
+
     async def _start_passive_server(self, connection, handler_callback):
         if self.available_data_ports is not None:
             # ports found busy go back to the pool when the search is over:
@@ -1666,6 +1677,7 @@ class Server:
                     throttles=connection.command_connection.throttles,
                     timeout=connection.socket_timeout,
                 )
+                self._remember_data_stream(connection)
 
         # pipelined PASV/EPSV must not start two listeners for one session
         created = False
@@ -1733,6 +1745,7 @@ class Server:
                     throttles=connection.command_connection.throttles,
                     timeout=connection.socket_timeout,
                 )
+                self._remember_data_stream(connection)
 
         if rest:
             code, info = "522", ["custom protocols support not implemented"]
